@@ -24,6 +24,7 @@ Driver for stream `witness` (C15). One op per line, one observation per line.
       xop := LW h160 f | LS h160 f | LD h160 f | LH h160 hash f | LN h160 caller hash f init | CL | RT | UW n
            | CC target fs safe init | CT target fs safe init | RL h160 fs | NC caller target init
            | VS hash | VC hash init | IS h160
+           | TR catch finally | ET | EF | TH     (TRY, ENDTRY, ENDFINALLY, THROW: the machine with try stacks, `VMT.step`)
            | OB            -> o:<depth>,<current>,<calling>,<entry>,<flags>,<calledByEntry>
            | OI            -> i:<current>,<calling>,<entry>,<flags>      (what the four syscalls return inside a contract)
            | CW hex        -> true | false | err:nosigners | err:noreadstates | fault:badarg   (System.Runtime.CheckWitness)
@@ -43,6 +44,7 @@ import NeoModel.Model.Witness.Arg
 import NeoModel.Model.Witness.Ripemd160
 import NeoModel.Model.Witness.Items
 import NeoModel.Model.Witness.Json
+import NeoModel.Model.Witness.Try
 open NeoModel NeoModel.Witness
 
 abbrev P (α : Type) := List String → Option (α × List String)
@@ -181,6 +183,7 @@ def showSigner (s : Signer) : String :=
 
 inductive XOp where
   | m (op : Op)
+  | tm (op : TOp)
   | ob
   | oi
   | fe (n : Nat)
@@ -220,6 +223,10 @@ def pXOp : P XOp
     else if t == "VS" then do let (h, r) ← pHex r; pure (.m (.verifyScript h), r)
     else if t == "VC" then do let (h, r) ← pHex r; let (i, r) ← pBool r; pure (.m (.verifyContract h i), r)
     else if t == "IS" then do let (h, r) ← pHex r; pure (.m (.invocationScript h), r)
+    else if t == "TR" then do let (c, r) ← pBool r; let (f, r) ← pBool r; pure (.tm (.try_ c f), r)
+    else if t == "ET" then some (.tm .endTry, r)
+    else if t == "EF" then some (.tm .endFinally, r)
+    else if t == "TH" then some (.tm .throw, r)
     else if t == "OB" then some (.ob, r)
     else if t == "OI" then some (.oi, r)
     else if t == "FE" then do let (n, r) ← pDec r; pure (.fe n, r)
@@ -258,6 +265,13 @@ def showFault : MFault → String
   | .missingCallFlags => "fault:missingflags"
   | .flagsOutOfRange => "fault:flagsrange"
   | .invalidCallFlags => "fault:invalidflags"
+
+def showTFault : TFault → String
+  | .machine f => showFault f
+  | .tryDepth => "fault:trydepth"
+  | .badTry => "fault:badtry"
+  | .badState => "fault:badstate"
+  | .unhandled => "fault:unhandled"
 
 def showObs (v : VM) : String :=
   let top := v.istack.head?
@@ -354,30 +368,34 @@ def showRuleRes : Option Rule → String
   | some r => s!"ok {r.action} " ++ showCond r.cond
   | none => "err"
 
-def runX (k : Hash → Option (List Key)) (ic : IC) : VM → List XOp → List String → List String
+def runX (k : Hash → Option (List Key)) (ic : IC) : VMT → List XOp → List String → List String
   | _, [], acc => acc.reverse
-  | v, x :: xs, acc =>
+  | t, x :: xs, acc =>
+    let v := t.base
     match x with
-    | .m op => match v.step op with
-      | .ok v' => runX k ic v' xs acc
-      | .error f => (showFault f :: acc).reverse
-    | .ob => runX k ic v xs (showObs v :: acc)
-    | .oi => runX k ic v xs (showInfo v :: acc)
-    | .fe n => runX k ic v xs ((if v.flags == some n then "true" else "false") :: acc)
+    | .m op => match t.step (.base op) with
+      | .ok t' => runX k ic t' xs acc
+      | .error f => (showTFault f :: acc).reverse
+    | .tm op => match t.step op with
+      | .ok t' => runX k ic t' xs acc
+      | .error f => (showTFault f :: acc).reverse
+    | .ob => runX k ic t xs (showObs v :: acc)
+    | .oi => runX k ic t xs (showInfo v :: acc)
+    | .fe n => runX k ic t xs ((if v.flags == some n then "true" else "false") :: acc)
     | .ch h => match checkWitnessVM k ic v h with
       | none => ("fault:nocontext" :: acc).reverse
       | some r => match r with
-        | .ok _ => runX k ic v xs (showRes r :: acc)
+        | .ok _ => runX k ic t xs (showRes r :: acc)
         | .err _ => (showRes r :: acc).reverse
     | .cq arg => match checkWitnessArgVM h160Nat decKeyAny k ic v arg with
       | none => ("fault:nocontext" :: acc).reverse
       | some r => match r with
-        | some (.ok _) => runX k ic v xs acc
+        | some (.ok _) => runX k ic t xs acc
         | _ => (showOptRes r :: acc).reverse
     | .cw arg => match checkWitnessArgVM h160Nat decKeyAny k ic v arg with
       | none => ("fault:nocontext" :: acc).reverse
       | some r => match r with
-        | some (.ok _) => runX k ic v xs (showOptRes r :: acc)
+        | some (.ok _) => runX k ic t xs (showOptRes r :: acc)
         | _ => (showOptRes r :: acc).reverse
 
 def stepX (rest : List String) : Option String := do
@@ -385,7 +403,7 @@ def stepX (rest : List String) : Option String := do
   let (us, r) ← pOptSigners "U" r
   let (tx, r) ← pOptSigners "T" r
   let xs ← pXOps (r.length + 1) r
-  pure (String.intercalate " " (runX (lookupContract cs) ⟨us, tx⟩ VM.empty xs []))
+  pure (String.intercalate " " (runX (lookupContract cs) ⟨us, tx⟩ VMT.empty xs []))
 
 def step (tbl : Array Env) (ws : List String) : Array Env × String :=
   match ws with
